@@ -64,6 +64,9 @@ func probeMain() {
 			rr.Res.HoldsWaited, rr.Res.HoldsExpired, rr.Res.NonQuiescent, rr.Res.Sleeps, rr.Races)
 	}
 	for i, rr := range recs {
+		if rr.OK {
+			fmt.Printf("run %d contention: %v\n", i, rr.Res.Contention)
+		}
 		if len(rr.Res.Copies) > 0 {
 			bad := 0
 			for _, cp := range rr.Res.Copies {
